@@ -47,8 +47,8 @@ type scenario struct {
 	SecondRST  bool
 	SecondIdle time.Duration
 	Frames     []fspec
-	Cuts    []int // offsets into the stream, ascending, unique, in (0, len)
-	Gaps    []time.Duration
+	Cuts       []int // offsets into the stream, ascending, unique, in (0, len)
+	Gaps       []time.Duration
 }
 
 type holderObs struct {
